@@ -3,6 +3,7 @@ REGISTRY = {
     "C02": "c02_evidence",
     "C04": "c04_store",
     "C05": "c05_results",
+    "C07": "c07_reparam",
     "C10": "c10_batch",
     "C11": "c11_crash",
     "C12": "c12_resume",
